@@ -40,9 +40,11 @@ def gen_literal(rng, depth=0):
   if r < 0.3:
     return rng.randint(-9, 99)
   if r < 0.45:
-    return rng.choice(['s', 'true', 'False', 'a=b', "it's", 'x y', '', '1', '[0]', 'None'])
+    return rng.choice(['s', 'true', 'False', 'a=b', "it's", 'x y', '', '1', '[0]', 'None',
+                       'a,b', 'f(x)', ')', '(', '"q"', "k='v'", 'a, b=1', 'back\\slash',
+                       'tab\tx', 'line\nbreak', '#', ':', 'set:z=1', '{', ']'])
   if r < 0.55:
-    return rng.choice([True, False, None, 1.5, -0.25])
+    return rng.choice([True, False, None, 1.5, -0.25, 1e-3, 10 ** 20, -7, 2.5e10])
   if depth >= 2:
     return rng.randint(0, 9)
   if r < 0.75:
@@ -115,7 +117,7 @@ def gen_one(world, tier, rng, faults=True):
   for i in range(n):
     r = rng.random()
     if r < 0.35:
-      pending.append({'set': rng.randrange(10 ** 6), 'lit': gen_literal(rng),
+      pending.append({'set': rng.randrange(10 ** 6), 'lit': repr(gen_literal(rng)), 'src': 1,
                       'via': rng.choice(['dict', 'str'])})
     elif r < 0.55 and rng.random() < 0.3 and any(
         isinstance(p, str) and p.startswith('fiddler:') for p in pending + [d for st_ in steps for d in st_.get('ds', [])]):
@@ -125,8 +127,17 @@ def gen_one(world, tier, rng, faults=True):
               if isinstance(p, str) and p.startswith('fiddler:')]
       pending.append(rng.choice(prev))
     elif r < 0.55:
-      f = rng.choice(['fid_scale', 'fid_scale', 'fid_replace', 'fid_push'])
-      if f == 'fid_scale':
+      f = rng.choice(['fid_scale', 'fid_scale', 'fid_replace', 'fid_push', 'fid_record'])
+      if f == 'fid_record':
+        # a call expression with several literal arguments, positional and keyword
+        parts = [repr(gen_literal(rng)) for _ in range(rng.randint(0, 3))]
+        if rng.random() < 0.2:
+          parts.append(rng.choice(["b'by,te'", "(1, 'a,b')", "{'k': (1,)}", "-1e-3", "'''tq'''"]))
+        parts += [f'{k}={gen_literal(rng)!r}'
+                  for k in rng.sample(['k', 'j', 'name'], rng.randint(0, 2))]
+        sep = rng.choice([', ', ',', ' , '])
+        arg = '(' + sep.join(parts) + ')'
+      elif f == 'fid_scale':
         arg = rng.choice(['', '(3)', '(k=5)', '(k=-1)'])
       else:
         arg = f'({gen_literal(rng)!r})'
@@ -478,7 +489,7 @@ def run(case):
           if not paths:
             continue
           path = paths[d['set'] % len(paths)]
-          lit = repr(d['lit'])
+          lit = d['lit'] if d.get('src') else repr(d['lit'])   # (source text: JSON-stable)
           directive = f'set:{path}={lit}'
           try:
             exec('cfg' + accessor(path) + ' = ' + lit, {'cfg': model})  # pylint: disable=exec-used
